@@ -135,7 +135,9 @@ def classify(h, oi, kind, got):
 
 def cache_check(chk, kf):
     """results must not depend on parser tables cached on disk by earlier processes: empty, warm and stale cache directories"""
-    probes = [json.dumps([['asm', a]]) for a in ASM] + [json.dumps([['asm_att', a]]) for a in ATT]
+    # lines the parsers reject are probed too: HOW a line is rejected must not depend on the cache either
+    bad_i = ['mov *', 'BYTE BYTE 0', 'mov eax, [ebx', 'lea eax, ]', 'add eax ebx ecx']; bad_a = ['movl %eax,', 'movl $, %eax', 'leal (%eax,,), %ebx', ')']
+    probes = [json.dumps([['asm', a]]) for a in ASM + bad_i] + [json.dumps([['asm_att', a]]) for a in ATT + bad_a]
     base = os.path.join(chk.work, 'cache')
     res = {}
     for mode in ('empty', 'warm', 'stale'):
